@@ -27,6 +27,10 @@ pub struct Rw {
     pub allow_log_calls: bool,
     pub loop_await_rule: Option<(usize, String)>, // (loop ordinal, the one awaited method allowed inside it)
     pub loop_stack: Vec<usize>,
+    /// `timedawaits=`: every wait of the function must be a `timeout(..)` or one of these methods
+    pub timed_awaits: Option<Vec<String>>,
+    /// `awaitfn=`: `<local>.await` is rewritten to `<this fn>(<local>).await` (the prelude states what awaiting that value yields)
+    pub await_fn: Option<String>,
     pub live_guards: Vec<String>,
     /// guards discovered under `guards=*`
     pub star_guards: Vec<String>,
@@ -148,6 +152,8 @@ impl Rw {
             allow_log_calls: true, // log arguments are never needed by a property; those that contain calls are dropped unevaluated and recorded
             loop_await_rule: None,
             loop_stack: Vec::new(),
+            timed_awaits: None,
+            await_fn: None,
             live_guards: Vec::new(),
             star_guards: Vec::new(),
             scrut_counter: 0,
@@ -307,6 +313,17 @@ impl VisitMut for Rw {
                 }
                 b.stmts = out;
             }
+        }
+        // timed-await rule of the contract: every wait of this function is a `timeout(..).await` or `.<allowed>().await`
+        if let Some(allowed) = self.timed_awaits.clone() {
+            let mut out: Vec<Stmt> = Vec::new();
+            for st in b.stmts.drain(..) {
+                if stmt_has_untimed_await(&st, &allowed) {
+                    out.push(parse_quote!(vx_forbidden_await!();));
+                }
+                out.push(st);
+            }
+            b.stmts = out;
         }
         let mut keep = Vec::new();
         for st in b.stmts.drain(..) {
@@ -700,6 +717,34 @@ impl VisitMut for Rw {
 
     fn visit_expr_mut(&mut self, e: &mut Expr) {
         // pre-order cases
+        // R33: `timeout(d, f(..)).await` where the future is a call: either the time runs out first (the future is dropped; what
+        // it had done until then is not modelled) or the result is what awaiting the call yields
+        if let Expr::Await(a) = e {
+            if is_timeout_call(&a.base) {
+                if let Expr::Call(c) = &*a.base {
+                    if matches!(&c.args[1], Expr::Call(_) | Expr::MethodCall(_)) {
+                        let mut d = c.args[0].clone();
+                        let mut f = c.args[1].clone();
+                        self.visit_expr_mut(&mut d);
+                        self.visit_expr_mut(&mut f);
+                        *e = parse_quote!((if vx_timeout_elapsed(#d) { Err(vx_elapsed()) } else { Ok(#f.await) }));
+                        self.log.push("R33 timeout(d, <call>).await -> either elapsed or the awaited call (effects of a cancelled call not modelled)".into());
+                        return;
+                    }
+                }
+            }
+        }
+        // R34: `<local>.await` -> `<awaitfn>(<local>).await`
+        if let (Expr::Await(a), Some(f)) = (&*e, self.await_fn.clone()) {
+            if let Expr::Path(p) = &*a.base {
+                if let Some(i) = p.path.get_ident() {
+                    let id = i.clone();
+                    let fi = Ident::new(&f, proc_macro2::Span::call_site());
+                    *e = parse_quote!(#fi(#id).await);
+                    self.log.push(format!("R34 {id}.await -> {f}({id}).await"));
+                }
+            }
+        }
         if let Expr::Unary(u) = e {
             if matches!(u.op, UnOp::Deref(_)) {
                 if let Expr::Path(p) = &*u.expr {
@@ -1266,6 +1311,36 @@ fn stmt_awaits_other_than(st: &Stmt, allowed: &str) -> bool {
         }
         fn visit_block(&mut self, _b: &'a Block) {}
         fn visit_expr_async(&mut self, _b: &'a ExprAsync) {}
+    }
+    let mut f = F(false, allowed);
+    syn::visit::Visit::visit_stmt(&mut f, st);
+    f.0
+}
+
+fn is_timeout_call(e: &Expr) -> bool {
+    if let Expr::Call(c) = e {
+        if let Expr::Path(p) = &*c.func {
+            return c.args.len() == 2 && p.path.segments.last().map_or(false, |s| s.ident == "timeout");
+        }
+    }
+    false
+}
+
+/// does the statement itself (nested blocks are visited on their own) wait for anything that is neither `timeout(d, f)` nor
+/// `.<allowed>()`?
+fn stmt_has_untimed_await(st: &Stmt, allowed: &[String]) -> bool {
+    struct F<'g>(bool, &'g [String]);
+    impl<'a, 'g> syn::visit::Visit<'a> for F<'g> {
+        fn visit_expr_await(&mut self, a: &'a ExprAwait) {
+            let ok = is_timeout_call(&a.base) || matches!(&*a.base, Expr::MethodCall(m) if m.args.is_empty() && self.1.iter().any(|x| m.method == x));
+            if !ok {
+                self.0 = true;
+            }
+            syn::visit::visit_expr_await(self, a);
+        }
+        fn visit_block(&mut self, _b: &'a Block) {}
+        fn visit_expr_async(&mut self, _b: &'a ExprAsync) {}
+        fn visit_expr_closure(&mut self, _b: &'a ExprClosure) {}
     }
     let mut f = F(false, allowed);
     syn::visit::Visit::visit_stmt(&mut f, st);
